@@ -99,4 +99,5 @@ def main():
 
 
 if __name__ == "__main__":
-    main()
+    from vp.replay.native import guarded_main
+    guarded_main(main)
